@@ -121,6 +121,61 @@ InsertEdgeAsFlag(u, v, f, dmax) ==
   /\ act' = [op |-> "edge_as_flag", u |-> u, v |-> v, f |-> f, d |-> dmax,
              added_set |-> {SortedSeq(s) : s \in EdgeAsFlagAdded(u, v, dmax)}]
 
+(* expansion_with_blockers (:1949): cliques are added faces first and a simplex for which the oracle says *)
+(* "blocked" is removed again: the result is the largest subcomplex of the clique complex containing no   *)
+(* blocked simplex.  Blocked is a set of simplices of dimension >= 2.                                      *)
+BlockedExpansionK(d, Blocked) ==
+  LET C == {s \in Cliques(GraphV, GraphE, Max2(d, 1)) : \A t \in Faces(s) : t \notin Blocked}
+  IN  [s \in C |-> IF s \in Dom THEN K[s] ELSE FlagValue(K, s)]
+ExpansionWithBlockers(d, Blocked) ==
+  /\ DimC(Dom) <= 1
+  /\ MonotoneF(K)
+  /\ K' = BlockedExpansionK(d, Blocked)
+  /\ act' = [op |-> "expansion_blockers", d |-> d, blocked_set |-> {SortedSeq(s) : s \in Blocked}]
+
+(* Rips_complex (Rips_complex.h:104): graph of the pairs at distance <= t (vertices at 0), then expansion *)
+RipsGraphK(n, D, t) ==
+  LET VV == 0..(n - 1)
+      EE == {e \in {{a, b} : a, b \in VV} : Cardinality(e) = 2 /\ D[e] <= t}
+  IN  [s \in {{v} : v \in VV} \cup EE |-> IF Cardinality(s) = 1 THEN 0 ELSE D[s]]
+RipsK(n, D, t, d) ==
+  LET G == RipsGraphK(n, D, t)
+      VV == 0..(n - 1)
+      EE == {e \in DOMAIN G : Cardinality(e) = 2}
+  IN  [s \in Cliques(VV, EE, Max2(d, 1)) |-> IF s \in DOMAIN G THEN G[s] ELSE FlagValue(G, s)]
+RipsComplex(n, D, t, d, form) ==
+  /\ Dom = {}
+  /\ K' = RipsK(n, D, t, d)
+  /\ act' = [op |-> "rips", n |-> n, t |-> t, d |-> d, form |-> form,
+             d_set |-> {[a |-> Min(e), b |-> Max(e), w |-> D[e]] : e \in DOMAIN D}]
+
+(* extend_filtration (:2389): cone filtration of the vertex function.  Values are returned scaled by 4     *)
+(* (quarter units): original simplices -2 + max of the scaled vertex values (ascending lower star), coned     *)
+(* simplices 2 - min (descending upper star), the cone point -3.  Enabled when max - min divides 4.          *)
+ExtVals4(F) ==
+  LET Vs == {s \in DOMAIN F : Dim(s) = 0}
+      mn == Min({F[s] : s \in Vs})
+      mx == Max({F[s] : s \in Vs})
+      sc4(v) == IF mx = mn THEN 0 ELSE (4 * (F[{v}] - mn)) \div (mx - mn)
+      c  == Max(VerticesOf(DOMAIN F)) + 1
+  IN  [t \in DOMAIN F \cup {s \cup {c} : s \in DOMAIN F} \cup {{c}} |->
+         IF t = {c} THEN -12
+         ELSE IF c \in t THEN 8 - Min({sc4(v) : v \in t \ {c}})
+         ELSE -8 + Max({sc4(v) : v \in t})]
+ExtendOK(F) == LET Vs == {s \in DOMAIN F : Dim(s) = 0} IN
+  /\ DOMAIN F # {}
+  /\ \A s \in DOMAIN F : F[s] # INF
+  /\ (Max({F[s] : s \in Vs}) - Min({F[s] : s \in Vs})) \in {0, 1, 2, 4}
+ExtendFiltration ==
+  /\ ExtendOK(K)
+  /\ K' = ExtVals4(K)
+  /\ act' = [op |-> "extend"]
+(* decode_extended_filtration of a value (scaled by 4) given the original min and max: original value x 4 and part *)
+Decode4(f4, mn, mx) ==
+  IF f4 >= -8 /\ f4 <= -4 THEN [v4 |-> 4 * mn + (mx - mn) * (f4 + 8), t |-> "UP"]
+  ELSE IF f4 >= 4 /\ f4 <= 8 THEN [v4 |-> 4 * mn - (mx - mn) * (f4 - 8), t |-> "DOWN"]
+  ELSE [v4 |-> 0, t |-> "EXTRA"]
+
 -----------------------------------------------------------------------------
 (* Derived read interfaces                                                    *)
 Before(F, s, t) == F[s] < F[t] \/ (F[s] = F[t] /\ RevLex(s, t))
